@@ -243,16 +243,24 @@ func TestC03DocumentPatch(t *testing.T) {
 			}
 			w.Reps[0].NoteEmitted()
 			before := len(w.Reps[0].Buffer())
-			var perr error
+			var perr, swallowed error
 			var pan interface{}
 			// directly, or (a third) inside a transaction of the user whose function hands the error on
 			inUserTx := rapid.IntRange(0, 2).Draw(rt, fmt.Sprintf("p%d.in_user_tx", pi)) == 0
+			// ... whose function may swallow the error: a patch that failed half way still must not leave its first
+			// half behind (the transaction is rolled back and says so)
+			swallow := inUserTx && rapid.Bool().Draw(rt, fmt.Sprintf("p%d.swallow", pi))
 			func() {
 				defer func() { pan = recover() }()
 				if inUserTx {
 					labels["inside-a-user-transaction"] = true
 					if e := doc.Transaction("user", func(d orda.DocumentInTx) error {
 						if pe := d.Patch(patch...); pe != nil {
+							if swallow {
+								labels["inside-a-user-transaction-that-swallows-the-error"] = true
+								swallowed = pe
+								return nil
+							}
 							return pe
 						}
 						return nil
@@ -270,6 +278,21 @@ func TestC03DocumentPatch(t *testing.T) {
 			queued := len(w.Reps[0].Buffer()) - before
 			got := sim.Canon(sim.Normalize(doc.GetValue()))
 			unchanged, result := sim.Canon(model), sim.Canon(next)
+			if swallowed != nil && perr == nil {
+				// the patch failed, the user's function kept that to itself and the transaction committed: legitimate for
+				// a patch of one operation (a failed call inside a transaction is the user's to judge); nothing of the
+				// patch may be left, and what is queued is the lone header of a transaction without operations
+				if verdict == patchOK {
+					c.failf("Patch(%s) is applicable to %s but failed inside the transaction: %v", ob, unchanged, swallowed)
+				}
+				if got != unchanged {
+					c.failf("Patch(%s) failed inside a transaction (%v) whose function swallowed the error; the transaction committed and left %s of %s", ob, firstLineOf(swallowed.Error()), got, unchanged)
+				}
+				if queued > 1 {
+					c.failf("Patch(%s) failed inside a committed transaction but %d operations were queued for push", ob, queued)
+				}
+				continue
+			}
 			switch {
 			case verdict == patchErr && perr == nil:
 				c.failf("Patch(%s) must return an error (operation %d: %s) but succeeded; document %s -> %s", ob, failedAt+1, why, unchanged, got)
